@@ -783,8 +783,81 @@ def r01_7(chk: Check):
     chk.floor("R01.7", 15)
 
 
+def minimiser_bounds(S):
+    """the four bound expressions handed to the action minimiser in EOM._intermediatePressureResults:
+    {("widths", 0): expr, ("widths", 1): expr, ("offsets", 0): expr, ("offsets", 1): expr}   (0 = lower, 1 = upper)"""
+    fi = S.func(f"{EOM}._intermediatePressureResults")
+    cx = Ctx(S, fi)
+    mins = [c for c in calls_in(fi.node, "minimize") if "optimize" in (dotted(c.func) or "")]
+    if len(mins) != 1:
+        raise AnchorMissing("_intermediatePressureResults: the scipy.optimize.minimize call of the action not found")
+    bd = kwarg(mins[0], "bounds")
+    bdr = cx.resolve(bd) if bd is not None else None
+    if not (isinstance(bdr, ast.Call) and (dotted(bdr.func) or "").endswith("Bounds")):
+        raise AnchorMissing("_intermediatePressureResults: the scipy.optimize.Bounds handed to the minimiser not found")
+    out = {}
+    for side, e in ((0, kwarg(bdr, "lb", 0)), (1, kwarg(bdr, "ub", 1))):
+        e = cx.resolve(e) if e is not None else None
+        if not (isinstance(e, ast.Call) and eqx(e.func, "np.concatenate") and e.args and isinstance(e.args[0], (ast.Tuple, ast.List)) and len(e.args[0].elts) == 2):
+            raise AnchorMissing("_intermediatePressureResults: bounds are not (width bounds..., offset bounds...)")
+        for role, part in zip(("widths", "offsets"), e.args[0].elts):
+            # n * [bound]
+            lst = None
+            if isinstance(part, ast.BinOp) and isinstance(part.op, ast.Mult):
+                lst = part.right if isinstance(part.right, ast.List) else part.left if isinstance(part.left, ast.List) else None
+            elif isinstance(part, ast.Call) and eqx(part.func, "np.full") and len(part.args) >= 2:
+                lst = ast.List(elts=[part.args[1]], ctx=ast.Load())
+            if lst is None or len(lst.elts) != 1:
+                raise AnchorMissing("_intermediatePressureResults: a bound segment is not `count * [bound]`")
+            out[(role, side)] = lst.elts[0]
+    return fi, out
+
+
+def r01_8(chk: Check):
+    """a velocity is only reported as a success when the action minimisation was not stopped by its bounds: the saturation test of solveWall
+    compares the wall parameters with exactly the bounds that were handed to the minimiser"""
+    S = chk.src
+    fm, bounds = minimiser_bounds(S)
+    fi = S.func(f"{EOM}.solveWall")
+    chk.touch(fi.name, fm.name)
+    cx = Ctx(S, fi)
+    g = CFG(fi.node)
+    # success labels that come with a wall velocity (a runaway is reported without velocity and without wall parameters)
+    succ = [c for c in calls_in(fi.node, "setSuccessState") if c.args and eqx(c.args[0], "True") and not (len(c.args) > 1 and has(c.args[1], "ESolutionType.RUNAWAY"))]
+    tests = []
+    for t in g.nodes:
+        if g.kind.get(t) != "test":
+            continue
+        tr = cx.resolve(t)
+        cmps = [c for c in ast.walk(tr) if isinstance(c, ast.Compare) and len(c.ops) == 1 and isinstance(c.ops[0], (ast.Eq, ast.GtE, ast.LtE))
+                and any(has(x, "wallParams.widths") or has(x, "wallParams.offsets") for x in (c.left, c.comparators[0]))]
+        if cmps:
+            tests.append((t, cmps))
+    if len(tests) != 1 or not succ:
+        raise AnchorMissing("solveWall: the bound-saturation test / the success labelling not found")
+    t, cmps = tests[0]
+    got = set()
+    for c in cmps:
+        a, b = c.left, c.comparators[0]
+        if has(b, "wallParams.widths") or has(b, "wallParams.offsets"):
+            a, b = b, a
+        role = "widths" if has(a, "wallParams.widths") else "offsets"
+        got.add((role, nf(b, cx)))
+    want = {(role, nf(e)) for (role, side), e in bounds.items()}
+    chk.ob("R01.8", fi.where(t), "the saturation test compares the widths with both width bounds and the offsets with both offset bounds, each written "
+           "exactly as it was handed to the action minimiser (same units: widths in 1/Tnucl)", got == want,
+           f"tested against {sorted(got)}; minimiser bounds {sorted(want)}", key="saturation|same-bounds")
+    pos = g.branch(t, True)
+    sn = [g.node_of(c) for c in succ]
+    ok = all(x is not None for x in sn) and not any(g.reaches(pos, x) for x in sn) and all(g.must_pass(CFG.ENTRY, x, lambda q: q is t) for x in sn)
+    chk.ob("R01.8", fi.where(t), "a result whose wall parameters saturate the bounds is never labelled a success (every success label is reached only "
+           "through the non-saturated branch of the test)", ok, key="saturation|not-success")
+    chk.floor("R01.8", 2)
+
+
 def rules(chk: Check) -> None:
     r01_7(chk)
+    r01_8(chk)
     r01_1(chk)
     r01_2(chk)
     r01_3(chk)
